@@ -164,10 +164,15 @@ def oracle_sweep(ctx, ops, impl):
                 ctx.violation("http-ping-body", "GET /ping answered %s instead of the body OK" % q[0], o + "\n")
             if code == 200 and w[w.index("raw") + 1:w.index("raw") + 3] == ["GET", "/info"] and "body=version" not in q[0]:
                 ctx.violation("http-info-body", "GET /info answered %s instead of {\"version\": <binary version>}" % q[0], o + "\n")
-            if code >= 500 or code < 0:
-                ctx.violation("http-5xx:" + " ".join(w[2:4]), "HTTP request answered %s" % q[0], o + "\n")
-            if 400 <= code < 500 and len(q) > 1 and prevq is not None and q[1] != prevq:
-                ctx.violation("http-4xx-changed:" + " ".join(w[2:4]),
+            k = w.index("raw")
+            busy_ok = code == 500 and w[k + 1:k + 3] == ["GET", "/debug/pprof/profile"]   # text judged in the harness (E4-ORACLE)
+            if (code >= 500 and not busy_ok) or code < 0:
+                ctx.violation("http-5xx:" + " ".join(w[k + 1:k + 3]), "HTTP request answered %s" % q[0], o + "\n")
+            if code in (301, 307, 308) and (code == 301) != (w[k + 1] == "GET"):
+                ctx.violation("http-redirect-code:" + w[k + 1], "redirect %d for method %s (301 is for GET only: another method "
+                              "would be re-sent as GET)" % (code, w[k + 1]), o + "\n")
+            if not (200 <= code < 300) and len(q) > 1 and prevq is not None and q[1] != prevq:
+                ctx.violation("http-non2xx-changed:" + " ".join(w[k + 1:k + 3]),
                               "a request answered %d changed the registry: %s" % (code, o), o + "\n")
         prevq = q[1] if len(q) > 1 else None
     ctx.corr["sweep_status_histogram"] = st
@@ -299,6 +304,11 @@ def run(ctx):
                 broken.append("sweep harness exit %s" % rc)
                 continue
             e4.hist_lines(ctx, out, "sweep")
+            for l in out.splitlines():
+                if l.startswith("E4-ORACLE pprof-undocumented-answer"):
+                    ctx.violation("pprof-undocumented-answer:" + " ".join(l.split()[2:4])[:80],
+                                  "a net/http/pprof row answered something other than 200 / 400 (bad `seconds`) / 500 (CPU "
+                                  "profile already running): " + l[:300], l.split(" | ", 1)[-1] + "\n")
             ops = e4.read_lines(os.path.join(ctx.work, "sweep.ops"))
             impl = e4.read_lines(os.path.join(ctx.work, "sweep.impl"))
             model = e4.model_lines(ctx, os.path.join(ctx.work, "sweep.ops"))
